@@ -2793,9 +2793,12 @@ class PyCdlib:
 
         outfp.seek(self.pvd.extent_location() * self.logical_block_size)
 
-        # First write out the PVDs.
-        for pvd in self.pvds:
-            rec = pvd.record()
+        # First write out the PVDs.  Duplicate PVDs have to be identical
+        # (including the modification date, which is taken from the clock when
+        # the descriptor is recorded), so record the PVD once and write that
+        # same record for every copy.
+        rec = self.pvd.record()
+        for pvd_unused in self.pvds:
             self._outfp_write_with_check(outfp, rec)
             progress.call(len(rec))
 
